@@ -71,6 +71,9 @@ func (k *regularKeeper) set(shardID uint64, replicaID uint64, db *db) {
 }
 
 func (k *regularKeeper) iterate(f func(*db) error) error {
+	if verifEnabled {
+		return verifIterateRegular(k.dbs, f)
+	}
 	for _, db := range k.dbs {
 		if err := f(db); err != nil {
 			return err
@@ -114,6 +117,9 @@ func (k *multiplexedKeeper) set(shardID uint64, replicaID uint64, db *db) {
 }
 
 func (k *multiplexedKeeper) iterate(f func(*db) error) error {
+	if verifEnabled {
+		return verifIterateMultiplexed(k.dbs, f)
+	}
 	for _, db := range k.dbs {
 		if err := f(db); err != nil {
 			return err
